@@ -94,6 +94,7 @@ type integEngine struct {
 	maxExecPar  int
 	writing     atomic.Value // string: exec key whose chunk is being delivered
 	limboUsed   int
+	builtGraphs map[*GraphSpec]*scheduler.ExecutionGraph
 	cancelGIDs  sync.Map // goroutines that are executing Cancel: their log lines are park points
 	cli         bool
 	logSeq      int32
@@ -200,10 +201,17 @@ func (e *integEngine) build() {
 }
 
 func (e *integEngine) buildGraph(g *GraphSpec) (*scheduler.ExecutionGraph, error) {
+	if e.builtGraphs == nil {
+		e.builtGraphs = map[*GraphSpec]*scheduler.ExecutionGraph{}
+	}
+	if eg, ok := e.builtGraphs[g]; ok {
+		return eg, nil
+	}
 	eg, err := scheduler.NewExecutionGraph()
 	if err != nil {
 		return nil, err
 	}
+	e.builtGraphs[g] = eg
 	for _, s := range g.Stages {
 		st := &scheduler.Stage{Name: s.Name, DependsOn: append([]string(nil), s.Deps...), AllowFailure: s.Allow}
 		switch s.Cond {
@@ -543,7 +551,7 @@ func (e *integEngine) eligible() []*Park {
 		switch p.Kind {
 		case "exec":
 			info := p.Data.(*ExecInfo)
-			plan := e.w.Plan(info.ID)
+			plan := e.w.PlanFor(info.ID, e.pl.identity(info.GID))
 			if info.ChunkPos < len(plan.Chunks) {
 				out = append(out, p)
 				continue
@@ -611,7 +619,7 @@ func (e *integEngine) nextWake() time.Duration {
 			continue
 		}
 		info := p.Data.(*ExecInfo)
-		plan := e.w.Plan(info.ID)
+		plan := e.w.PlanFor(info.ID, e.pl.identity(info.GID))
 		if plan.DurMS > 0 {
 			consider(floorTick(info.StartAt) + time.Duration(plan.DurMS)*time.Millisecond)
 		}
@@ -705,7 +713,7 @@ func (e *integEngine) releasePark(p *Park) {
 	switch p.Kind {
 	case "exec":
 		info := p.Data.(*ExecInfo)
-		plan := e.w.Plan(info.ID)
+		plan := e.w.PlanFor(info.ID, e.pl.identity(info.GID))
 		if info.ChunkPos < len(plan.Chunks) {
 			ch := plan.Chunks[info.ChunkPos]
 			info.ChunkPos++
@@ -723,7 +731,7 @@ func (e *integEngine) releasePark(p *Park) {
 		c.Release(p, Action{Kind: "exit", Code: plan.Exit})
 	case "exec-dying":
 		info := p.Data.(*ExecInfo)
-		plan := e.w.Plan(info.ID)
+		plan := e.w.PlanFor(info.ID, e.pl.identity(info.GID))
 		switch plan.Intr {
 		case "later":
 			c.Count("fault_kill_delay")
